@@ -109,6 +109,15 @@ def o_geo(case):
         if (tw.x, tw.y) != (ex, ey):
             return fail("C17/tower-rewired", "tower %s of a configuration re-centred on another origin keeps local coordinates of the old origin" % tw.name,
                         None, [ex, ey], [tw.x, tw.y], 0)
+    # several towers, the FIRST exactly at the reference origin (the flux tower the domain is centred on), then the others
+    cfg4 = parse_config_dict(dict(domain=dict(nx=4, ny=4, xmax=10.0, ymax=10.0, nz=3, ref_lat=rlat, ref_lon=rlon),
+                                  towers=[dict(name="o", lat=rlat, lon=rlon, z_m=2.0), dict(name="a", lat=float(lat), lon=float(lon), z_m=2.0),
+                                          dict(name="b", lat=float(lat_b), lon=float(lon_b), z_m=3.0)], met=dict(ustar=0.3)))
+    for tw in cfg4.towers:
+        ex, ey = latlon_to_xy(tw.lat, tw.lon, rlat, rlon)
+        if (tw.x, tw.y) != (ex, ey) or not isinstance(tw.x, float) or not isinstance(tw.y, float):
+            return fail("C17/tower-after-origin", "tower %s of a configuration whose first tower sits on the reference origin is not at latlon_to_xy of its position" % tw.name,
+                        None, [float(ex), float(ey)], [tw.x, tw.y], 0)
     t.compute_local_xy(new_ref[0], new_ref[1])
     if (t.x, t.y) != tuple(latlon_to_xy(t.lat, t.lon, new_ref[0], new_ref[1])):
         return fail("C17/tower-rewired", "compute_local_xy called for a second origin does not give the coordinates relative to that origin", None,
